@@ -353,6 +353,8 @@ impl Local {
                 collecting: Cell::new(false),
                 epoch: CachePadded::new(AtomicEpoch::new(Epoch::starting())),
             });
+            #[cfg(feature = "circ_verif")]
+            crate::verif::expose(local.as_raw());
             collector.global.locals.insert(local, &unprotected());
             LocalHandle {
                 local: local.as_raw(),
